@@ -325,6 +325,15 @@ class Translator:
             if m in ("__enter__", "__exit__"):
                 return FRESH()
             self.err(call, "unclassified method .%s()" % m)
+        # ---- call of a parameter that every call site binds to a pure, allocating NumPy function ----------------------
+        if isinstance(f, ast.Name) and f.id in self.resolver.callable_params.get(F.qual, {}):
+            vals, kws = self.call_args(F, call)
+            if "out" in kws:
+                self.write(F, kws["out"], call)
+                return Val.join([kws["out"]])
+            for nm in self.resolver.callable_params[F.qual][f.id]:
+                self.used_np.add(nm)
+            return FRESH()
         # ---- builtins / constructors -----------------------------------------------------------------------------
         if isinstance(f, ast.Name):
             vals, kws = self.call_args(F, call)
@@ -631,6 +640,7 @@ class Resolver:
         self.effects = {}       # qual -> field its receiver gets rebound to (zero_ -> "._grad")
         self.methods = {}       # method name -> qual (methods of Tensor translated)
         self.kinds = {}         # qual -> kernel | wrapper | closure | initialiser | method | layer
+        self.callable_params = {}   # qual -> {param name: sorted list of the pure NumPy functions every call site passes}
 
     def module_functions(self, modkey):
         return self.modfuns.get(modkey, set())
@@ -880,6 +890,47 @@ def translate_all():
     for (key, qual, fn, ps, tens, wr, kind, encl) in jobs:
         R.sigs[qual] = (ps, tens, None)
         R.kinds[qual] = kind
+    # ---- callable parameters: resolved from ALL call sites (fail closed) --------------------------------------------
+    for (key, qual, fn, ps, tens, wr, kind, encl) in jobs:
+        called = sorted({n.func.id for n in ast.walk(fn) if isinstance(n, ast.Call) and isinstance(n.func, ast.Name) and n.func.id in ps})
+        if not called:
+            continue
+        if kind != "kernel":
+            raise Untranslatable("%s: calls its parameter(s) %s (only kernels may take function arguments)" % (qual, called))
+        found = {c: set() for c in called}
+        nsites = 0
+        for key2, (path2, tree2) in mods.items():
+            for n in ast.walk(tree2):
+                if not isinstance(n, ast.Call):
+                    continue
+                try:
+                    tgt = R.resolve(key2, n.func)
+                except Untranslatable:
+                    tgt = None
+                if tgt != qual:
+                    continue
+                nsites += 1
+                if any(isinstance(a, ast.Starred) for a in n.args) or any(k.arg is None for k in n.keywords):
+                    raise Untranslatable("%s:%d: star-arguments in a call of %s, whose parameter is called" % (path2, n.lineno, qual))
+                for c in called:
+                    i = ps.index(c)
+                    val = n.args[i] if i < len(n.args) else next((k.value for k in n.keywords if k.arg == c), None)
+                    txt = U(val) if val is not None else "<default>"
+                    if not (txt.startswith("np.") and txt[3:] in NP_FRESH):
+                        raise Untranslatable("%s:%d: %s is called with %s=%s, which is not a known pure allocating NumPy function"
+                                             % (path2, n.lineno, qual, c, txt))
+                    found[c].add(txt[3:])
+        # the function must not be used as a value (aliased / passed on): there would be call sites we cannot see
+        for key2, (path2, tree2) in mods.items():
+            funcs = {id(n.func) for n in ast.walk(tree2) if isinstance(n, ast.Call)}
+            for n2 in ast.walk(tree2):
+                is_ref = (isinstance(n2, ast.Name) and isinstance(n2.ctx, ast.Load) and n2.id == fn.name and (key2 == key or (key2 == "cpu_ops" and key == "conv_tools"))) \
+                    or (isinstance(n2, ast.Attribute) and n2.attr == fn.name and isinstance(n2.value, ast.Name) and n2.value.id == key)
+                if is_ref and id(n2) not in funcs:
+                    raise Untranslatable("%s:%d: %s (which calls its parameter) is used as a value" % (path2, n2.lineno, qual))
+        if nsites == 0:
+            raise Untranslatable("%s: calls its parameter(s) %s but has no call site in the translated modules" % (qual, called))
+        R.callable_params[qual] = {c: sorted(v) for c, v in found.items()}
     # ---- pass 2: bodies -----------------------------------------------------------------------------------------
     funs = []
     used_np, used_methods = set(), set()
